@@ -249,7 +249,7 @@ func init() {
 		Desc: "name confinement: no '.', '..', '/' or empty component reaches the backend; walks only through directories",
 		Run:  runC09,
 		Directed: func(string) int { return c09Cases() },
-		Quick:    24000, Thorough: 300000, QuickSecs: 60, ThorSecs: 900,
+		Quick:    24000, Thorough: 3000000, QuickSecs: 60, ThorSecs: 900,
 		Rule:  fmt.Sprintf("directed: %d name-bearing request fields x %d names (empty, dots, embedded/leading/trailing slashes, NUL, high bytes, 255 and 65535 bytes, harmless look-alikes '..a' 'a..' '...') + %d attach names + walks through file/symlink/fifo/chr/socket intermediates in one request and one request per component (the last starting from a fid bound to the non-directory), all in every tier; random: mangled names in random fields. Oracle: backend call log — no component empty, '.', '..' or containing '/' is ever received by any File method; Walk/WalkGetAttr with a name only on receivers the backend reported as directories and one component at a time; unsafe requests answered EINVAL; harmless names (and symlink targets, free text) are not refused. This is an input property: the simulator is the vehicle (real server stack, ownership of every call); the search is over names and fields, not schedules.", len(c09Fields), len(c09Names), len(c09Attach)),
 		Assume: []string{"an attach name with an empty path after one leading slash is the root attach"},
 		Real:   []string{"p9.Server", "p9 handlers", "p9 wire codec"},
